@@ -1,5 +1,5 @@
 import Witverif.Proofs.Scalar
-import Witverif.Generated.CastExprs
+import Witverif.Generated.CastExprs.D
 /-! # C04 (backend half), backend `d`: the emitted `Bitcast` expressions
 
 `G.d_<Bitcast>_<probe>` lists the expressions the `d` generator emitted for that `Bitcast` on the
@@ -11,7 +11,7 @@ recovers every payload bit pattern.  Proof script: `scalar_tac` (fixed). -/
 namespace Witverif.Props.C04Backends.D
 open Witverif.Scalar Witverif.Scalar.Spec
 namespace G
-export Witverif.Generated.CastExprs (d_F32ToI32_f32_s32 d_I32ToF32_f32_s32 d_F64ToI64_f64_s64 d_I64ToF64_f64_s64 d_I32ToI64_s32_s64 d_I64ToI32_s32_s64 d_F32ToI64_f32_s64 d_I64ToF32_f32_s64 d_None_s32_f32 d_I32ToI64_u32_f64 d_I64ToI32_u32_f64 d_F32ToI64_f32_f64 d_I64ToF32_f32_f64 d_F64ToI64_f64_f32 d_I64ToF64_f64_f32)
+export Witverif.Generated.CastExprs (d_F32ToI32_f32_s32 d_I32ToF32_f32_s32 d_F64ToI64_f64_s64 d_I64ToF64_f64_s64 d_I32ToI64_s32_s64 d_I64ToI32_s32_s64 d_F32ToI64_f32_s64 d_I64ToF32_f32_s64 d_None_s32_f32 d_I32ToI64_u32_f64 d_I64ToI32_u32_f64 d_F32ToI64_f32_f64 d_I64ToF32_f32_f64 d_F64ToI64_f64_f32 d_I64ToF64_f64_f32 d_I64ToP64_s64_string d_P64ToI64_s64_string d_I32ToP_s32_string d_PToI32_s32_string d_F32ToI32_I32ToP_f32_string d_PToI32_I32ToF32_f32_string d_F64ToI64_I64ToP64_f64_string d_P64ToI64_I64ToF64_f64_string)
 end G
 set_option maxRecDepth 8000
 
@@ -105,5 +105,53 @@ theorem d_I64ToF64_f64_f32_is_spec : ∀ e ∈ G.d_I64ToF64_f64_f32, e.IsSpec :=
 theorem f64_f32_roundtrip : RoundTrips G.d_F64ToI64_f64_f32 G.d_I64ToF64_f64_f32 := by
   unfold G.d_F64ToI64_f64_f32 G.d_I64ToF64_f64_f32; scalar_tac
 example : G.d_F64ToI64_f64_f32 ≠ [] ∧ G.d_I64ToF64_f64_f32 ≠ [] := by decide
+
+/-- d: `I64ToP64` (s64 payload into the i64 slot) is the canonical ABI conversion, all 2^64 patterns -/
+theorem d_I64ToP64_s64_string_is_spec : ∀ e ∈ G.d_I64ToP64_s64_string, e.IsSpec := by
+  unfold G.d_I64ToP64_s64_string; scalar_tac
+
+/-- d: `P64ToI64` (i64 slot back to the s64 payload) is the canonical ABI conversion, all 2^64 slot values -/
+theorem d_P64ToI64_s64_string_is_spec : ∀ e ∈ G.d_P64ToI64_s64_string, e.IsSpec := by
+  unfold G.d_P64ToI64_s64_string; scalar_tac
+/-- d: `P64ToI64 ∘ I64ToP64` recovers every s64 bit pattern -/
+theorem s64_string_roundtrip : RoundTrips G.d_I64ToP64_s64_string G.d_P64ToI64_s64_string := by
+  unfold G.d_I64ToP64_s64_string G.d_P64ToI64_s64_string; scalar_tac
+example : G.d_I64ToP64_s64_string ≠ [] ∧ G.d_P64ToI64_s64_string ≠ [] := by decide
+
+/-- d: `I32ToP` (s32 payload into the i32 slot) is the canonical ABI conversion, all 2^32 patterns -/
+theorem d_I32ToP_s32_string_is_spec : ∀ e ∈ G.d_I32ToP_s32_string, e.IsSpec := by
+  unfold G.d_I32ToP_s32_string; scalar_tac
+
+/-- d: `PToI32` (i32 slot back to the s32 payload) is the canonical ABI conversion, all 2^32 slot values -/
+theorem d_PToI32_s32_string_is_spec : ∀ e ∈ G.d_PToI32_s32_string, e.IsSpec := by
+  unfold G.d_PToI32_s32_string; scalar_tac
+/-- d: `PToI32 ∘ I32ToP` recovers every s32 bit pattern -/
+theorem s32_string_roundtrip : RoundTrips G.d_I32ToP_s32_string G.d_PToI32_s32_string := by
+  unfold G.d_I32ToP_s32_string G.d_PToI32_s32_string; scalar_tac
+example : G.d_I32ToP_s32_string ≠ [] ∧ G.d_PToI32_s32_string ≠ [] := by decide
+
+/-- d: `F32ToI32_I32ToP` (f32 payload into the i32 slot) is the canonical ABI conversion, all 2^32 patterns -/
+theorem d_F32ToI32_I32ToP_f32_string_is_spec : ∀ e ∈ G.d_F32ToI32_I32ToP_f32_string, e.IsSpec := by
+  unfold G.d_F32ToI32_I32ToP_f32_string; scalar_tac
+
+/-- d: `PToI32_I32ToF32` (i32 slot back to the f32 payload) is the canonical ABI conversion, all 2^32 slot values -/
+theorem d_PToI32_I32ToF32_f32_string_is_spec : ∀ e ∈ G.d_PToI32_I32ToF32_f32_string, e.IsSpec := by
+  unfold G.d_PToI32_I32ToF32_f32_string; scalar_tac
+/-- d: `PToI32_I32ToF32 ∘ F32ToI32_I32ToP` recovers every f32 bit pattern -/
+theorem f32_string_roundtrip : RoundTrips G.d_F32ToI32_I32ToP_f32_string G.d_PToI32_I32ToF32_f32_string := by
+  unfold G.d_F32ToI32_I32ToP_f32_string G.d_PToI32_I32ToF32_f32_string; scalar_tac
+example : G.d_F32ToI32_I32ToP_f32_string ≠ [] ∧ G.d_PToI32_I32ToF32_f32_string ≠ [] := by decide
+
+/-- d: `F64ToI64_I64ToP64` (f64 payload into the i64 slot) is the canonical ABI conversion, all 2^64 patterns -/
+theorem d_F64ToI64_I64ToP64_f64_string_is_spec : ∀ e ∈ G.d_F64ToI64_I64ToP64_f64_string, e.IsSpec := by
+  unfold G.d_F64ToI64_I64ToP64_f64_string; scalar_tac
+
+/-- d: `P64ToI64_I64ToF64` (i64 slot back to the f64 payload) is the canonical ABI conversion, all 2^64 slot values -/
+theorem d_P64ToI64_I64ToF64_f64_string_is_spec : ∀ e ∈ G.d_P64ToI64_I64ToF64_f64_string, e.IsSpec := by
+  unfold G.d_P64ToI64_I64ToF64_f64_string; scalar_tac
+/-- d: `P64ToI64_I64ToF64 ∘ F64ToI64_I64ToP64` recovers every f64 bit pattern -/
+theorem f64_string_roundtrip : RoundTrips G.d_F64ToI64_I64ToP64_f64_string G.d_P64ToI64_I64ToF64_f64_string := by
+  unfold G.d_F64ToI64_I64ToP64_f64_string G.d_P64ToI64_I64ToF64_f64_string; scalar_tac
+example : G.d_F64ToI64_I64ToP64_f64_string ≠ [] ∧ G.d_P64ToI64_I64ToF64_f64_string ≠ [] := by decide
 
 end Witverif.Props.C04Backends.D
